@@ -48,6 +48,11 @@ def DICTOBJ(k, template, where=None, size=True):
     return ("dictobj", k, template, where, size)
 
 
+def LISTOF(*decls):
+    """a python list of concrete length whose elements are built from the given declarations"""
+    return ("listof", tuple(decls))
+
+
 def OPT(t):
     return ("opt", t)
 
@@ -58,6 +63,11 @@ def EXPR(s):
 
 def BYTES_N(n):
     return ("bytesn", n)
+
+
+def BYTES_FIXED(n):
+    """n bytes given as n named byte constants (structural: offsets into it stay syntactic); n <= 64"""
+    return ("bytesn", n, True)
 
 
 def RANGE(lo, hi):
